@@ -1,9 +1,136 @@
+import GqlVerif.Driver.Decode
 import GqlVerif.Driver.Loop
-open GqlVerif
+import GqlVerif.Model.Cli
+/-! Model driver for C19 / C20 (the command line tool). -/
+open GqlVerif GqlVerif.Cli
+
+def bad (what : String) : Sexp := .list [.atom "bad-request", .str what]
+
+def optS : Option String → Sexp
+  | none => .list []
+  | some s => .list [.str s]
+
+def exitSexp : Exit → Sexp
+  | .success => .list [.atom "success"]
+  | .failure m => .list [.atom "failure", .str m]
+  | .usage m => .list [.atom "usage", .str m]
+  | .panic m => .list [.atom "panic", .str m]
+
+def headerErrAtom : HeaderErr → String
+  | .noColon => "no-colon" | .emptyName => "empty-name" | .whitespaceInName => "ws-name"
+
+/-- same layout as `vcore::common::Opts::to_sexp` -/
+def optionsSexp (o : Options) : Sexp :=
+  .list [.atom "opts",
+    .atom (match o.mode with | .cli => "cli" | .derive => "derive"),
+    optS o.operationName, optS o.structIdent,
+    .atom (match o.normalization with | .none => "none" | .rust => "rust"),
+    .atom (match o.deprecation with | .allow => "allow" | .deny => "deny" | .warn => "warn"),
+    Sexp.mkBool o.otherVariant, Sexp.mkBool o.skipNone,
+    optS o.responseDerives, optS o.variablesDerives, optS o.scalarsModule,
+    .list (o.externEnums.map .str), .str o.serdePath, .str o.visibility, optS o.queryFile]
+
+def decodeBehaviour : Sexp → Option ServerBehaviour
+  | .list [.atom "ok200json", j] => (Json.ofSexp j).map .ok200Json
+  | .list [.atom "ok200garbage"] => some .ok200Garbage
+  | .list [.atom "status4xx", .str b] => some (.status4xx b)
+  | .list [.atom "status5xx", .str b] => some (.status5xx b)
+  | .list [.atom "refused"] => some .refused
+  | .list [.atom "cut", b] => b.asBool?.map .cutMidReply
+  | _ => none
+
+def decodeEnums : Sexp → Option (Option (List String))
+  | .list [.atom "none"] => some none
+  | .list [.atom "some", xs] => (Decode.strList xs).map some
+  | _ => none
+
+/-- `(flags "query" "schema" sel vd rd dep vis outdir scalars noFormatting other enums)` -/
+def decodeFlags : Sexp → Option GenFlags
+  | .list [.atom "flags", .str q, .str s, sel, vd, rd, dep, vis, outdir, scalars, nofmt, other, enums] => do
+    pure { queryPath := q, schemaPath := s, selectedOperation := ← Decode.optStr sel,
+           variablesDerives := ← Decode.optStr vd, responseDerives := ← Decode.optStr rd,
+           deprecationStrategy := ← Decode.optStr dep, moduleVisibility := ← Decode.optStr vis,
+           outputDirectory := ← Decode.optStr outdir, customScalarsModule := ← Decode.optStr scalars,
+           noFormatting := ← nofmt.asBool?, fragmentsOtherVariant := ← other.asBool?,
+           externalEnums := ← decodeEnums enums }
+  | _ => none
+
+/-- `(paths-ok "p" ...)`: the strings `syn::parse_str::<syn::Path>` accepts (observed by the harness) -/
+def decodePathOk : Sexp → Option (String → Bool)
+  | .list (.atom "paths-ok" :: xs) => (Decode.strList (.list xs)).map fun ok => fun s => ok.contains s
+  | _ => none
+
+def decodeLib : Sexp → Option LibResult
+  | .list [.atom "tokens", .str t] => some (.tokens t)
+  | .list [.atom "err", .str m] => some (.err m)
+  | .list [.atom "panic", .str m] => some (.panic m)
+  | _ => none
+
+def decodeFmt : Sexp → Option (String → Option String)
+  | .list [.atom "fmt", .str out] => some fun _ => some out
+  | .list [.atom "fmtfail"] => some fun _ => none
+  | _ => none
 
 def handle (req : Sexp) : Sexp :=
   match req with
   | .list (.atom "echo" :: xs) => .list (.atom "echo" :: xs)
-  | _ => .list [.atom "bad-request", .str "unknown request"]
+  | .list [.atom "parse-header", .str s] =>
+    match parseHeaderChars s.toList, parseHeader s.toList with
+    | .ok _, .ok (n, v) => .list [.atom "ok", .str n, .str v]
+    | .error e, .error m => .list [.atom "err", .atom (headerErrAtom e), .str m]
+    | _, _ => bad "parse-header"
+  | .list [.atom "select-doc", o, u] =>
+    match o.asBool?, u.asBool? with
+    | some o, some u =>
+      match selectDoc o u with
+      | some (op, file, text) => .list [.atom "doc", .str op, .str file, .str text]
+      | none => .list [.atom "none"]
+    | _, _ => bad "select-doc"
+  | .list [.atom "request", .str loc, hs, auth, o, u] =>
+    match Decode.strList hs, Decode.optStr auth, o.asBool?, u.asBool? with
+    | some hs, some auth, some o, some u =>
+      match parseHeaderArgs hs with
+      | .error e => exitSexp e
+      | .ok parsed =>
+        match buildRequest loc parsed auth o u with
+        | .error e => exitSexp e
+        | .ok r => .list [.atom "request", .str r.method, .str r.url,
+                          .list (r.headers.map fun nv => .list [.str nv.1, .str nv.2]), r.body.toSexp]
+    | _, _, _, _ => bad "request"
+  | .list [.atom "introspect", beh, output, creatable, file, .str out] =>
+    match decodeBehaviour beh, output.asBool?, creatable.asBool?, Decode.optStr file with
+    | some beh, some output, some creatable, some file =>
+      let (e, w) := introspect beh output creatable { file := file, stdout := out }
+      .list [.atom "result", Sexp.mkNat e.code, optS w.file, .str w.stdout]
+    | _, _, _, _ => bad "introspect"
+  | .list [.atom "pretty", j] =>
+    match Json.ofSexp j with
+    | some j => .list [.atom "ok", .str (pretty j)]
+    | none => bad "pretty"
+  | .list [.atom "file-name", .str p] => optS ((fileName p.toList).map String.ofList)
+  | .list [.atom "file-stem", .str n] => .str (String.ofList (fileStem n.toList))
+  | .list [.atom "with-extension-rs", .str p] => .str (String.ofList (withExtensionRs p.toList))
+  | .list [.atom "path-join", .str d, .str n] => .str (String.ofList (pathJoin d.toList n.toList))
+  | .list [.atom "dest-path", dir, .str q] =>
+    match Decode.optStr dir with
+    | some dir => optS ((destPath (dir.map String.toList) q.toList).map String.ofList)
+    | none => bad "dest-path"
+  | .list [.atom "cli-options", flags, ok] =>
+    match decodeFlags flags, decodePathOk ok with
+    | some f, some ok =>
+      match cliOptions ok f with
+      | .ok o => .list [.atom "ok", optionsSexp o]
+      | .error e => exitSexp e
+    | _, _ => bad "cli-options"
+  | .list [.atom "generate", flags, ok, lib, fmt, creatable, old] =>
+    match decodeFlags flags, decodePathOk ok, decodeLib lib, decodeFmt fmt, creatable.asBool?, Decode.optStr old with
+    | some f, some ok, some lib, some fmt, some creatable, some old =>
+      let env : GenEnv := { synPathOk := ok, lib := fun _ => lib, rustfmt := fmt, creatable := fun _ => creatable }
+      let dest := (destPath (f.outputDirectory.map String.toList) f.queryPath.toList).map String.ofList
+      let (e, fs) := generateCode env f (fun _ => old)
+      .list [.atom "result", Sexp.mkNat e.code, optS dest,
+             optS (match dest with | some d => fs d | none => old)]
+    | _, _, _, _, _, _ => bad "generate"
+  | _ => bad "unknown request"
 
 def main : IO Unit := runLoop handle
